@@ -74,6 +74,15 @@ class Walker:
                 return ("lit", (a[1] == b[1]) == isinstance(node.ops[0], ast.Eq))
         if match(node, "self._value == 0") is not None or match(node, "0 == self._value") is not None:
             return ("zero",)
+        if isinstance(node, ast.Compare) and len(node.ops) == 1 and isinstance(node.ops[0], (ast.Is, ast.IsNot)) \
+                and isinstance(node.left, ast.Name) and node.left.id in env and isinstance(node.comparators[0], ast.Constant) \
+                and node.comparators[0].value is None:
+            # a local that is None on some branches (a "no table entry" marker): decided by what the branch bound it to
+            v = env[node.left.id]
+            if v == ("const", None):
+                return ("lit", isinstance(node.ops[0], ast.Is))
+            if v[0] in ("row", "name", "desc", "tuple", "f", "bit", "and", "shr", "v", "T") or (v[0] == "const" and v[1] is not None):
+                return ("lit", isinstance(node.ops[0], ast.IsNot))
         if isinstance(node, ast.Call) and isinstance(node.func, ast.Attribute) and isinstance(node.func.value, ast.Name) \
                 and node.func.value.id == "self" and node.func.attr in self.helpers and len(node.args) == 1:
             M = self.fold(node.args[0], env)
